@@ -44,6 +44,8 @@ def gen(ls, tier, rng):
         rowsels += [[0, 0, nr - 1], list(range(nr))[::-1], [0] + list(range(nr)), list(range(nr)) + [0], [i for i in range(nr) for _ in (0, 1)], [0, nr - 1, 1 % nr, nr - 1]]
         if nr >= 4: rowsels += [[0, 2, 1, 3], [1, 0, 3, 2]]
     rowsels += [list(m) for m in itertools.product([True, False], repeat=nr)][:16] if nr else []
+    # boolean masks of the wrong length are refused (also when the surplus entries are all False)
+    rowsels += [[True] * (nr + 1), [True] * nr + [False], [False] * (nr + 2)] + ([[True] * (nr - 1)] if nr >= 2 else [])
     C = [None, -mx - 1, -2, -1, 0, 1, 2, mx + 1]
     colsels = [None, Ellipsis] + list(range(-mx - 1, mx + 1)) + [slice(a, b, s) for a in C for b in C for s in [None, 1, 2, 3, -1, -2, -3]]
     colsels += [[0], [0, 0], [-1, 0]]
@@ -150,7 +152,7 @@ def spellings_stage(Rn, tier, rng):
         nr = len(R); mx = max(ls) if ls else 0
         ints = sorted({0, nr - 1, -1, -nr, nr, -nr - 1}) if nr else [0]
         lists = [[0], [nr - 1, 0], [-1, -1, 0]] if nr else [[]]
-        masks = [[(i % 2 == 0) for i in range(nr)]] if nr else []
+        masks = [[(i % 2 == 0) for i in range(nr)], [(i % 3 != 1) for i in range(nr)], [False] * nr] if nr else []
         slices = [slice(None, None, -1), slice(1, None), slice(None, None, 2)]
         csels = [0, -1, slice(None, 2), slice(None, None, -1), slice(1, None, 2)]
         for i in ints:
@@ -166,6 +168,8 @@ def spellings_stage(Rn, tier, rng):
                 if isinstance(cs, int): continue
                 cases.append((R, (l, cs), "(np.array(list), ..., c)", (arr(l), Ellipsis, cs)))
         for m in masks:
+            cases.append((R, m, "python list of bool", list(m)))                   # a mask spelled as a plain Python list (not an ndarray)
+            cases.append((R, m, "list of np.bool_", [np.bool_(b) for b in m]))
             cases.append((R, m, "(np.array(mask),)", (np.array(m),)))
             for cs in csels:
                 if isinstance(cs, int): continue
